@@ -287,10 +287,23 @@ pub fn child(args: &[String]) -> i32 {
     let tmp = sut::TempFiles::new(&[prefix.as_slice()]);
     let path = tmp.paths[0].clone();
     let tables = sut::make_tables("CREATE TABLE t(line = '(?s)^(.*)$', line[1] => x TEXT);").unwrap();
-    let st = sut::parse("SELECT input FROM t").unwrap();
+    let stmt_text = args.get(4).map(|h| String::from_utf8_lossy(&unhex(h)).to_string()).unwrap_or_else(|| "SELECT input FROM t".to_string());
+    let interrupt_at: i64 = args.get(5).and_then(|x| x.parse().ok()).unwrap_or(-1);
+    let st = sut::parse(&stmt_text).unwrap();
+    let running = Arc::new(AtomicBool::new(true));
+    let running2 = running.clone();
+    let mut follow_lines = 0i64;
     let mut appender = OpenOptions::new().append(true).open(&path).unwrap();
     let mut next = 0usize;
     verif_hooks::set(Box::new(move |p| {
+        if p == Point::FollowLine {
+            // the executor is about to load the running flag for the next delivered line
+            if follow_lines == interrupt_at {
+                running2.store(false, std::sync::atomic::Ordering::SeqCst);
+            }
+            follow_lines += 1;
+            return Action::Continue;
+        }
         if p != Point::FollowRetry {
             return Action::Continue;
         }
@@ -303,7 +316,7 @@ pub fn child(args: &[String]) -> i32 {
         }
     }));
     let display = DisplayOptions { output_format: OutputFormat::Json, single_result: false, print_result: true };
-    let mut ex = match FollowFileExecutor::new(Arc::new(AtomicBool::new(true)), File::open(&path).unwrap(), head, display, ExecutionEngine::new(&tables, &st)) {
+    let mut ex = match FollowFileExecutor::new(running, File::open(&path).unwrap(), head, display, ExecutionEngine::new(&tables, &st)) {
         Ok(e) => e,
         Err(e) => {
             println!("FOLLOW-ERROR {}", e);
@@ -318,6 +331,26 @@ pub fn child(args: &[String]) -> i32 {
         Err(p) => println!("FOLLOW-END panic {}", p.msg),
     }
     0
+}
+
+/// run the real FollowFileExecutor in a child process; returns (delivered `input` values, end marker, child ok)
+pub fn follow_child(head: bool, prefix: &[u8], chunks: &[Vec<u8>], stmt: &str, interrupt_at: i64) -> (Vec<String>, String, bool) {
+    let exe = std::env::current_exe().unwrap();
+    let ch: Vec<String> = chunks.iter().map(|c| hex(c)).collect();
+    let out = std::process::Command::new(exe).args(["--child", "follow", if head { "1" } else { "0" }, &hex(prefix), &ch.join(","), &hex(stmt.as_bytes()), &interrupt_at.to_string()]).output().expect("spawn follow child");
+    let stdout = String::from_utf8_lossy(&out.stdout).to_string();
+    let mut delivered = Vec::new();
+    let mut end = String::new();
+    for l in stdout.lines() {
+        if let Some(rest) = l.strip_prefix("FOLLOW-END ") {
+            end = rest.to_string();
+        } else if l.starts_with("FOLLOW-ERROR") {
+            end = l.to_string();
+        } else if !l.is_empty() {
+            delivered.push(l.to_string());
+        }
+    }
+    (delivered, end, out.status.success())
 }
 
 fn executor_case(head: bool, prefix: &[u8], content: &[u8], chunk_lens: &[usize]) -> Vec<Failure> {
